@@ -18,6 +18,18 @@ func genC02(r *rand.Rand, run int, tier string) *vm.Plan {
 	g := h.g
 	key := h.issuers[0]
 	auth := g.BlockFor(nil, 4, 2, 1)
+	if r.Intn(5) == 0 { // a larger authority block (whatever is special about small worlds must not matter)
+		for i := 0; i < 14+r.Intn(12); i++ {
+			auth.Facts = append(auth.Facts, ref.Pred{Name: "grant", Terms: []ref.Term{ref.Str(fmt.Sprintf("file%d", i)), ref.Str("read")}})
+		}
+		auth.Facts = dedupFacts(auth.Facts)
+	}
+	// a quarter of the runs verify under tight limits: a token that is refused because a limit is
+	// hit must stay refused when something is appended to it
+	bigDur := bigDur
+	if r.Intn(4) == 0 {
+		bigDur = &vm.Lim{MaxDurNs: 1e9, MaxFacts: len(auth.Facts) + 3 + r.Intn(8), MaxIter: 2 + r.Intn(4)}
+	}
 	tok := h.build(key, auth, nil)
 	abs := &ref.Token{Blocks: []ref.Block{auth}}
 	// authorizer contents known to the (possibly hostile) holders
